@@ -274,6 +274,9 @@ pub fn run_c05(ctx: &RunCtx) -> Outcome {
         t
     };
     stage_random(ctx, &mut o, &p, "random unrestricted", &RandCfg::wild(), &rtexts, cases, &|_| true);
+    if !stage(ctx, &mut o, &p, "repeats with lower bound above upper bound (rejected, or sane)", &gen::inverted_repeat_patterns(), &gen::texts(&['a', 'b'], 4)) {
+        return o;
+    }
     if o.violations.is_empty() {
         // wide patterns: 8..37 groups, save slots beyond 64
         let wcases = if ctx.quick() { 20_000 } else { 300_000 };
